@@ -271,3 +271,83 @@ Theorem C09_member_range :
   forall (s : string) (z : Z), hex_decode s = HVal z -> 0 <= z < 2 ^ 256.
 Proof. exact hex_decode_range. Qed.
 Print Assumptions C09_member_range.
+
+(* ---- model growth: HTTP gate over the body bytes, aux-key rule, registry histories ---- *)
+
+(* IssuerResolver.Resolve over (status code, body bytes): an answer is used only if
+   200 <= code < 300, the body reads and closes, is SHORTER than the limit, is EXACTLY ONE
+   JSON value (json_one_value: the scanner of encoding/json, modelled in Verify/Status.v) and
+   that value decodes to the answer.  The Content-Length header is not consulted. *)
+Theorem C09_http_gate :
+  forall (code : Z) (body : string) (read_ok close_ok : bool) (wire : option wire_status) (a : answer),
+  http_resolve_body code body read_ok close_ok wire = Ok a <->
+  200 <= code < 300 /\ read_ok = true /\ close_ok = true /\
+  Z.of_nat (String.length body) < 16384 /\
+  json_one_value body = true /\ parse_status_body wire = Some a.
+Proof. exact http_gate. Qed.
+Print Assumptions C09_http_gate.
+
+(* "exactly one value": after the tokens of a complete value ANY further token is an error *)
+Theorem C09_http_gate_one_value :
+  forall (toks more : list jtok),
+  jaccepts toks = true -> more <> [] -> jaccepts (toks ++ more) = false.
+Proof. exact json_tokens_one_value. Qed.
+Print Assumptions C09_http_gate_one_value.
+
+(* seeded variant (streaming decoder: accept when a PREFIX of the body is one value) *)
+Theorem C09_http_gate_streaming_refuted :
+  exists body pre rest,
+    body = append pre rest /\ json_one_value pre = true /\ json_one_value body = false.
+Proof. exact http_gate_streaming_refuted. Qed.
+Print Assumptions C09_http_gate_streaming_refuted.
+
+(* a non-existence proof whose auxiliary node key equals the queried key never verifies:
+   in the tree model for every hash, and in ValidateCredentialStatus (neither success nor
+   the revoked error) *)
+Theorem C09_nonexistence_aux_key_differs_smt :
+  forall (hl hm : Z -> Z -> Z) (p : proof) (k v av : Z),
+  ex p = false -> aux p = Some (k, av) ->
+  root_from_proof hl hm p k v = None /\ forall r, verify_proof hl hm r p k v = false.
+Proof. exact nonex_aux_key_differs_smt. Qed.
+Print Assumptions C09_nonexistence_aux_key_differs_smt.
+
+Theorem C09_nonexistence_aux_key_differs :
+  forall (poseidon : list Z -> Z) (q : Z), 0 < q <= 2 ^ 256 ->
+  forall (reg : registry) (cs : cred_status) (a : answer) (av : Z),
+  0 <= cs_nonce cs < q -> resolved reg cs a ->
+  r_ex (a_mtp a) = false -> r_aux (a_mtp a) = Some (Some (cs_nonce cs), Some av) ->
+  exists t, validate_status poseidon q reg cs = Err t /\ t <> ERevoked.
+Proof. exact nonex_aux_key_differs. Qed.
+Print Assumptions C09_nonexistence_aux_key_differs.
+
+(* seeded variant (root walk from the auxiliary leaf without that check): for EVERY hash it
+   "proves" the absence of the only key of a one-leaf tree *)
+Theorem C09_nonexistence_aux_key_nocheck_refuted :
+  forall (hl hm : Z -> Z -> Z) (k : Z),
+  exists t p, wf 40 t /\ In k (keys t) /\ ex p = false /\
+              verify_proof_nocheck hl hm (root hl hm t) p k 0 = true /\
+              verify_proof hl hm (root hl hm t) p k 0 = false.
+Proof. exact nonex_aux_key_nocheck_refuted. Qed.
+Print Assumptions C09_nonexistence_aux_key_nocheck_refuted.
+
+(* registry: after ANY history of Register/Delete calls, Get(ty) is decided by the last
+   operation naming ty (Register: that resolver; Delete: unregistered) *)
+Theorem C09_registry_history :
+  forall (ops : list regop) (reg : registry) (ty : string),
+  lookup_resolver (reg_history reg ops) ty = fold_left (hist_step ty) ops (lookup_resolver reg ty).
+Proof. exact registry_history. Qed.
+Print Assumptions C09_registry_history.
+
+Theorem C09_registry_last_wins :
+  forall (ops : list regop) (reg : registry) (ty : string) (r : resolver) (more : list regop),
+  (forall o, In o more -> match o with ORegister t _ | ODelete t => t <> ty end) ->
+  lookup_resolver (reg_history reg (ops ++ ORegister ty r :: more)) ty = Some r.
+Proof. exact registry_last_wins. Qed.
+Print Assumptions C09_registry_last_wins.
+
+Theorem C09_registry_never_registered :
+  forall (poseidon : list Z -> Z) (q : Z) (ops : list regop) (cs : cred_status),
+  (forall o, In o ops -> match o with ORegister t _ => t <> cs_type cs | ODelete _ => True end) ->
+  validate_status poseidon q (reg_history [] ops) cs = Err EStatusType.
+Proof. exact registry_never_registered. Qed.
+Print Assumptions C09_registry_never_registered.
